@@ -117,6 +117,10 @@ func sGenSet(T *sim.Tape, allowNoDen bool) *sSet {
 		tables = append(tables, [2]string{"arm64", "linux"})
 	}
 	mirror := T.Intn(3, "mirror") == 0 && nb >= 2
+	bigSamples := T.Intn(8, "big-samples") == 0
+	if bigSamples {
+		nb, nu = 1, 1
+	}
 	ne := 0
 	// every point gets 1-4 experiments; an experiment may cover a second point with the same denominator hash
 	for pi := range s.points {
@@ -161,6 +165,9 @@ func sGenSet(T *sim.Tape, allowNoDen bool) *sSet {
 			}
 			bench := sBenches[bi]
 			nlines := 1 + T.Intn(6, "nlines")
+			if bigSamples {
+				nlines = 40 + T.Intn(31, "nlines-big") // samples around the 64-value mark
+			}
 			scale := float64(1+T.Intn(500, "scale")) * math.Pow(10, float64(T.Intn(5, "mag")-2))
 			if T.Intn(12, "tiny") == 0 {
 				scale *= 1e-17 // custom fraction-per-op metrics can be this small; ratios are scale-free
@@ -175,6 +182,14 @@ func sGenSet(T *sim.Tape, allowNoDen bool) *sSet {
 				return out
 			}
 			den := mkVals()
+			// numerator and denominator often live on very different scales (a ratio far from 1 tells mixed-up samples apart)
+			if f := []float64{1, 1, 0.001, 1000}[T.Intn(4, "den-factor")]; f != 1 {
+				for u := range den {
+					for l := range den[u] {
+						den[u][l] *= f
+					}
+				}
+			}
 			for pk, pi := range pts {
 				num := mkVals()
 				if mirror && bi == 1 && pk == 0 && prevNum != nil && len(prevNum[0]) > 0 {
@@ -650,6 +665,61 @@ func c18Run(t *testing.T, r *sim.Run, tier string) {
 				r.Hit("bootstrap summary checked")
 			}
 		}
+	}
+	// existing series handed back in (the -ji flow): tables for which the builder has no new results are carried
+	// over after the recomputed ones, in the order they were given
+	if T.Intn(5, "existing-lane") == 0 && len(refCSS) > 0 {
+		prev, _ := sBuild(t, r, s, T.Perm(len(s.results), "add-order"), withTable, policy, false)
+		for _, cs := range prev {
+			cs.AddSummaries(0.9, 50) // series handed back in always carry their summaries (they come from the JSON output)
+		}
+		var given []*ComparisonSeries
+		for i := 0; i < 3; i++ {
+			u := fmt.Sprintf("zz-carried-%d", T.Intn(1000, "carried-name"))
+			given = append(given, &ComparisonSeries{Unit: u, Benchmarks: []string{"B"}, Series: []string{"S"},
+				Summaries: [][]*ComparisonSummary{{&ComparisonSummary{Low: 1, Center: 1, High: 1, Present: true}}}, HashPairs: map[string]ComparisonHashes{}})
+		}
+		perm := T.Perm(len(given), "given-order")
+		var existing []*ComparisonSeries
+		for _, i := range perm {
+			existing = append(existing, given[i])
+		}
+		if policy == DUPE_REPLACE {
+			existing = append(existing, prev...) // under COMBINE an old summary in a cell that gets new data is a documented gap (nil numerator)
+		}
+		var warns []string
+		b2, _ := NewBuilder(sOpts(withTable, &warns))
+		var txt strings.Builder
+		for _, res := range s.results {
+			txt.WriteString(res.text())
+		}
+		rd := benchfmt.NewReader(strings.NewReader(txt.String()), "set")
+		for rd.Scan() {
+			if res, ok := rd.Result().(*benchfmt.Result); ok {
+				b2.Add(res)
+			}
+		}
+		out, err := b2.AllComparisonSeries(existing, policy)
+		if err != nil {
+			r.Fail("series", "unexpected-error", "AllComparisonSeries(existing) failed: %v", err)
+		}
+		var gotOrder, wantOrder []string
+		for _, cs := range out {
+			if strings.HasPrefix(cs.Unit, "zz-carried-") {
+				gotOrder = append(gotOrder, cs.Unit)
+			}
+		}
+		seenU := map[string]bool{}
+		for _, i := range perm {
+			if !seenU[given[i].Unit] { // duplicate names collapse
+				wantOrder = append(wantOrder, given[i].Unit)
+			}
+			seenU[given[i].Unit] = true
+		}
+		if len(seenU) == len(given) && strings.Join(gotOrder, ",") != strings.Join(wantOrder, ",") {
+			r.Fail("series", r.Lane+"/carried-over-tables-reordered", "tables without new results were handed in as %v and came back as %v", wantOrder, gotOrder)
+		}
+		r.Hit("existing series handed back in")
 	}
 	// concurrent callers: two tasks compute summaries for two independently built copies of the series at the
 	// same time (under the seeded scheduler); each must get the sequential numbers
